@@ -1,8 +1,13 @@
 import PtnModel.Driver.MPS
+import PtnModel.Driver.Evolution
 import PtnModel.Model.Ops
 open Lean
 namespace Ptn.Drv.HistDrv
-open Ptn.Hist Ptn.Drv.MPSDrv
+open Ptn.Hist Ptn.Drv.MPSDrv Ptn.Drv.Krylov
+
+local instance : Div GRat := ⟨fun a b =>
+  let d := b.re * b.re + b.im * b.im
+  ⟨(a.re * b.re + a.im * b.im) / d, (a.im * b.re - a.re * b.im) / d⟩⟩
 
 def parseObj (j : Json) : R (Obj GRat) := do
   match (← fStr j "cls") with
@@ -28,9 +33,16 @@ def parseHOp (j : Json) : R (HOp GRat Rat) := do
   | "apply" => pure (.apply (← fNat j "i") (← fNat j "j"))
   | "zero_q" => pure (.zeroQ (← fNat j "i"))
   | "copy" => pure (.copy (← fNat j "i"))
+  | "from_vector" => pure (.fromVector (← fNat j "d") (← fNat j "nsites") (← fList j "v" parseGRat) (← parseRat (← fld j "tol")))
+  | "tdvp1" => pure (.tdvp1 (← fNat j "iH") (← fNat j "i") (← parseGRat (← fld j "dt")) (← fNat j "numsteps") (← fNat j "numiter"))
+  | "tdvp2" => pure (.tdvp2 (← fNat j "iH") (← fNat j "i") (← parseGRat (← fld j "dt")) (← fNat j "numsteps") (← fNat j "numiter")
+      (← parseRat (← fld j "tol")))
+  | "dmrg1" => pure (.dmrg1 (← fNat j "iH") (← fNat j "i") (← fNat j "numsteps") (← fNat j "numiter"))
+  | "dmrg2" => pure (.dmrg2 (← fNat j "iH") (← fNat j "i") (← fNat j "numsteps") (← fNat j "numiter") (← parseRat (← fld j "tol")))
   | h => throw s!"unknown history op {h}"
 
-def kernelsOf (k : Kernels) : StepKernels GRat Rat := ⟨k.dqr, svdK k, dabs k, GRat.divR⟩
+def kernelsOf (k : Kernels) (kk : KK) : StepKernels GRat Rat :=
+  ⟨k.dqr, svdK k, dabs k, GRat.divR, k.drfun "sqrt", kk.dnorm, kk.deigh, kk.dexp, kk.dexpm, ⟨1 / 2, 0⟩⟩
 
 /-- which slots differ between two pools (entrywise comparison of the JSON rendering) -/
 def changedSlots (p q : Pool GRat) : List Nat :=
@@ -43,14 +55,14 @@ def handle : Handler := fun op j =>
   match op with
   | "hist.run" => some do
       let pool ← fList j "pool" parseObj
-      let steps ← fList j "steps" (fun s => do pure ((← parseHOp s), (← parseKernels s)))
+      let steps ← fList j "steps" (fun s => do pure ((← parseHOp s), (← parseKernels s), (← parseKK s)))
       -- run step by step; stop at the first error
       let mut p := pool
       let mut out : Array Json := #[]
       let mut stop := false
-      for (hop, k) in steps do
+      for (hop, k, kk) in steps do
         if !stop then
-          match step (kernelsOf k) p hop with
+          match step (kernelsOf k kk) p hop with
           | .error e =>
             out := out.push (jObj [("ok", Json.bool false), ("err", Json.str e.toString)])
             stop := true
